@@ -101,8 +101,14 @@ impl From<Evaluated<'_>> for Value {
 }
 
 pub fn to_number_value(number: f64) -> Result<Value, Error> {
-    if number.fract() == 0.0 {
+    // Integral results are returned as JSON integers, but only when they fit:
+    // `as` casts saturate, so an unchecked cast would turn e.g. 1e300 into
+    // i64::MAX. (2^63 and 2^64 are exact as f64; the upper bounds are exclusive.)
+    let integral = number.fract() == 0.0;
+    if integral && number >= -9223372036854775808.0 && number < 9223372036854775808.0 {
         Ok(Value::Number(Number::from(number as i64)))
+    } else if integral && number >= 0.0 && number < 18446744073709551616.0 {
+        Ok(Value::Number(Number::from(number as u64)))
     } else {
         Number::from_f64(number)
             .ok_or_else(|| {
